@@ -31,6 +31,7 @@ type call struct {
 }
 
 type fakeClock struct {
+	bump  bool // Step moves the epoch on, as driver/clocks.SystemClock.Step does
 	epoch uint64
 	now   time.Time
 	calls []call
@@ -44,6 +45,9 @@ func (c *fakeClock) Drift(time.Duration) time.Duration { panic("fakeClock: Drift
 func (c *fakeClock) Sleep(time.Duration)               { panic("fakeClock: Sleep called") }
 func (c *fakeClock) Step(offset time.Duration) {
 	c.calls = append(c.calls, call{step: true, offset: offset})
+	if c.bump {
+		c.epoch++
+	}
 }
 func (c *fakeClock) Adjust(offset, duration time.Duration, frequency float64) {
 	c.calls = append(c.calls, call{offset: offset, duration: duration, frequency: frequency})
@@ -92,7 +96,7 @@ func exec(t []string) string {
 		clk = &fakeClock{}
 		pll = adjustments.NewPLL(slog.New(slog.DiscardHandler), clk)
 		return "ok"
-	case t[0] == "pll.do" && len(t) == 7:
+	case t[0] == "pll.do" && (len(t) == 7 || len(t) == 8 && t[7] == "rc"):
 		e, err := strconv.ParseUint(t[1], 10, 64)
 		if err != nil || !strings.HasPrefix(t[6], "pow=") {
 			return "bad-op"
@@ -104,6 +108,7 @@ func exec(t []string) string {
 			return "bad-op"
 		}
 		clk.epoch = e
+		clk.bump = len(t) == 8
 		clk.now = time.Unix(sec, ns)
 		clk.calls = clk.calls[:0]
 		pll.Do(time.Duration(off), w)
@@ -137,6 +142,7 @@ type hist struct {
 	monotone  bool     // readings never decreased within the current segment
 	sec, ns   int64    // current clock reading
 	clkEpoch  uint64
+	rc        bool
 	maxModeIn uint64
 }
 
@@ -187,6 +193,9 @@ func (h *hist) update(off int64, w float64) {
 	now := time.Unix(h.sec, h.ns)
 	pow := math.Pow(0.999, now.Sub(tPrev).Seconds())
 	op := fmt.Sprintf("pll.do %d %d %d %d %s pow=%s", h.clkEpoch, h.sec, h.ns, off, bits(w), bits(pow))
+	if h.rc {
+		op += " rc" // the clock's Step moves its epoch on during the call (real clock behaviour)
+	}
 	ans := c.Do(op)
 	h.ops = append(h.ops, op)
 	cur := nsOf(h.sec, h.ns)
@@ -479,6 +488,7 @@ func history(c *lib.Ctx, r *lib.Rand, n int, backwards bool) {
 	}
 	h := newHist(c, sec, r.Range(0, 999999999), epoch)
 	realClock := r.Chance(60) // epoch moves after a Step, as driver/clocks does
+	h.rc = realClock
 	wFixed := -1.0
 	if r.Chance(50) {
 		wFixed = []float64{1000, 200, 150, 100, 20, 4}[r.Intn(6)]
